@@ -557,7 +557,8 @@ func init() {
 		Cold:           func(c Case) bool { return c.Variant == 1 },
 		Gen:            func(c Case, pool *Pool) *Plan { return GenConcurrent(c.Seed, c.Variant == 1, pool) },
 		Exec:           func(p *Plan, pool *Pool, t *core.Trace) { execConcPlan(p, pool, t) },
-		RequiredProbes: map[string][]string{"quick": {"lock_contended", "cold_start"}, "thorough": {"lock_contended", "cold_start"}},
+		// (lock_contended is reported but not required: whether the library uses mutexes at all is its own business)
+		RequiredProbes: map[string][]string{"quick": {"cold_start", "schedules_run"}, "thorough": {"cold_start", "schedules_run"}},
 		Components: map[string]string{"operationparser, operationapplier, doccomposer, didtransformer, dochandler, VDR, verprovider, nsprovider, clientregistry, log": "real (rewritten copy: yield / lock hooks inserted by tools/rewrite)",
 			"Go scheduler": "simulated (cooperative baton scheduler driven by the seed)", "race detector": "real (-race), baton hidden with runtime.RaceDisable"},
 		Assumptions: append([]string{"interleavings are explored at the granularity of inserted points (function entries and lock operations); finer interference is left to the happens-before race oracle",
